@@ -185,6 +185,32 @@ def import_closure(prop):
     return sorted(seen)
 
 
+def needed_generated(prop, drivers=()):
+    """Generated Lean files the property's theorems and drivers import (transitively)."""
+    roots = ["Props." + prop]
+    lf = open(os.path.join(LEAN_SRC, "lakefile.toml")).read()
+    for d in drivers:
+        m = re.search(r'name = "%s"\s*\nroot = "([\w.]+)"' % re.escape(d), lf)
+        if m:
+            roots.append(m.group(1))
+    seen, todo, gen = set(), roots, set()
+    while todo:
+        mod = todo.pop()
+        if mod in seen:
+            continue
+        seen.add(mod)
+        if mod.startswith("DeltaModel.Generated."):
+            gen.add(mod.split(".")[-1])
+            continue
+        path = os.path.join(LEAN_SRC, *mod.split(".")) + ".lean"
+        if not os.path.exists(path):
+            continue
+        for m in re.finditer(r"^\s*(?:public\s+)?import\s+([\w.]+)", open(path).read(), flags=re.M):
+            if m.group(1).split(".")[0] in ("DeltaModel", "Proofs", "Props", "Driver"):
+                todo.append(m.group(1))
+    return sorted(gen)
+
+
 def source_audit(prop):
     """Forbidden constructs in the Lean sources the property's theorems depend on (comments removed)."""
     hits = []
@@ -465,9 +491,9 @@ def main(argv):
 
     sync_private_lean()
     # 2. translator: regenerate the extracted tables
-    ok, xlog, rep.generated_hashes = run_extract(getattr(mod, "GENERATED", ()))
-    rep.generated_hashes = {k: v for k, v in rep.generated_hashes.items()
-                            if not getattr(mod, "GENERATED", ()) or k[:-5] in mod.GENERATED}
+    need = sorted(set(getattr(mod, "GENERATED", ())) | set(needed_generated(prop, getattr(mod, "DRIVERS", ()))))
+    ok, xlog, rep.generated_hashes = run_extract(need)
+    rep.generated_hashes = {k: v for k, v in rep.generated_hashes.items() if k[:-5] in need}
     if not ok:
         rep.broken_proofs.append("tools/extract.py: " + xlog[-600:])
 
